@@ -195,7 +195,9 @@ def gen_recipe(rng, name: str, want: dict | None = None) -> dict:
 
     # ---- auxiliaries, constraints, coefficients ----------------------------------------
     has_age = rng.random() < 0.5
-    has_income = has_a or rng.random() < 0.5
+    # without income the budget constraint is `s <= a`: with a node-to-node transition the optimum (save
+    # everything) then lies EXACTLY on the constraint boundary in every period
+    has_income = (rng.random() < 0.8) if has_a else (rng.random() < 0.5)
     constraints = []
     if cstate and any(c["name"] == "s" for c in cchoices):
         constraints.append({"kind": "budget", "slack_param": rng.random() < 0.4})
